@@ -532,6 +532,7 @@ func (m *Mux) serveHTTP(w http.ResponseWriter, r *http.Request) error {
 	}
 	if herr != nil {
 		if !stream.sentHeader {
+			setOutgoingHeader(w.Header(), stream.header)
 			w.Header().Set("Content-Encoding", "identity") // try to avoid gzip
 		}
 		m.encError(w, r, herr)
